@@ -110,6 +110,12 @@ pub fn beam_program() -> (Vec<u8>, HashMap<String, u16>) {
     a.db(&[0x21, 0x00, 0x40, 0x34, 0x21, 0x00, 0x58, 0x34]);
     a.label("bp1");
     a.db(&[0x00]);
+    // the other 128K screen from here on (bit 3 of 0x7FFD toggled while the beam is inside the picture, ROM 1 kept);
+    // on the 48K the port belongs to nobody
+    a.op16(&[0x3A], "tog"); // LD A,(tog)
+    a.db(&[0xEE, 0x08]); // XOR 8
+    a.op16(&[0x32], "tog"); // LD (tog),A
+    a.db(&[0xF6, 0x10, 0x01, 0xFD, 0x7F, 0xED, 0x79]); // OR 10h ; LD BC,7FFDh ; OUT (C),A
     a.db(&[0x01, 0x20, 0x03]); // LD BC,800
     a.label("d2");
     a.db(&[0x0B, 0x78, 0xB1, 0x20, 0xFB]);
@@ -117,6 +123,8 @@ pub fn beam_program() -> (Vec<u8>, HashMap<String, u16>) {
     a.label("bp2");
     a.db(&[0x00]);
     a.op16(&[0xC3], "loop");
+    a.label("tog");
+    a.db(&[0x00]);
     a.finish()
 }
 
